@@ -61,3 +61,76 @@ Example c12_example :
     (enc_bytes_map [([107], Some [1; 2])] ++ ref_query [65; 66] 6 [0])
   = FwdReenc (enc_bytes_map [([107], Some [1; 2])] ++ ref_query [65; 66] 4 [0]) 20.
 Proof. vm_compute. reflexivity. Qed.
+
+(** ---- added: stronger statements (proofs in Proofs/*2.v) ---- *)
+From Coq Require Import List ZArith NArith Bool.
+From CqlProxy Require Import Lib.Val Lib.Util Lib.Wire Model.Codec Proofs.CodecProofs Proofs.CodecProofs2
+  Model.Override Proofs.OverrideProofs Proofs.OverrideProofs2.
+
+(** For EVERY request body the proxy accepts (any envelope, any QUERY/EXECUTE/BATCH bytes the
+    partial decoders take -- not only reference layouts): when the override applies, what goes
+    out has the length of what came in and differs from it in exactly the two consistency bytes,
+    which sit at offset |envelope| + |encoded leading fields|; every byte before (custom payload,
+    statement / ids / batch children with their values) and after (the whole option tail) is
+    identical, and the header's length field equals the body length.
+    Side conditions, each necessary (refutations below): no warning flag on the request, no nil
+    payload value declared below -1 ([env_neg]), no [long string] declared with negative length
+    ([msg_neg]). *)
+Theorem c12_override_changes_exactly_two_bytes :
+  forall c v flags op lbody pl rest m,
+  wf_bytes lbody ->
+  split_envelope flags lbody = Some (pl, rest) -> decode_msg op v rest = Ok m ->
+  is_unsupported c (msg_cl m) = true ->
+  flag_warning flags = false -> env_neg flags lbody = false -> msg_neg op rest = false ->
+  exists out,
+    process_request c false v flags op lbody = FwdReenc out (Z.of_nat (length out)) /\
+    let k := (length lbody - length rest + length (msg_lead v m))%nat in
+    length out = length lbody /\
+    firstn k out = firstn k lbody /\
+    skipn (k + 2) out = skipn (k + 2) lbody /\
+    firstn 2 (skipn k out) = enc_short (override c) /\
+    firstn 2 (skipn k lbody) = enc_short (msg_cl m).
+Proof. exact override_changes_exactly_two_bytes_full. Qed.
+Print Assumptions c12_override_changes_exactly_two_bytes.
+
+(** Unconditionally (even for non-canonical bodies) the re-encoded message keeps its length and
+    everything after the consistency verbatim, and carries the new consistency at that offset. *)
+Theorem c12_override_keeps_length_and_tail :
+  forall op v b m cl', decode_msg op v b = Ok m ->
+  let k := length (msg_lead v m) in
+  let out := encode_msg v (set_cl m cl') in
+  length out = length b /\ skipn (k + 2) out = skipn (k + 2) b /\ skipn (k + 2) b = msg_params m /\
+  firstn 2 (skipn k out) = enc_short cl'.
+Proof. exact override_msg_length_and_tail. Qed.
+Print Assumptions c12_override_keeps_length_and_tail.
+
+(** Re-encoding identity of the message part, with its exact condition. *)
+Theorem c12_message_reencodes_iff :
+  forall op v b m, wf_bytes b -> decode_msg op v b = Ok m -> (encode_msg v m = b <-> msg_neg op b = false).
+Proof. exact encode_decode_msg_iff. Qed.
+Print Assumptions c12_message_reencodes_iff.
+
+(** The side conditions are necessary.
+    (1) a QUERY whose query string is declared with length -1: four more bytes change; *)
+Theorem c12_two_bytes_refuted_negative_length :
+  exists c v flags lbody out l,
+    wf_bytes lbody /\ process_request c false v flags 7 lbody = FwdReenc out l /\
+    length out = length lbody /\ firstn 4 out <> firstn 4 lbody.
+Proof. exact override_two_bytes_refuted_negative_length. Qed.
+Print Assumptions c12_two_bytes_refuted_negative_length.
+
+(** (2) the warning flag set on a request: the body grows by two bytes (an empty warning list); *)
+Theorem c12_two_bytes_refuted_warning_flag :
+  exists c v flags lbody out l,
+    wf_bytes lbody /\ process_request c false v flags 7 lbody = FwdReenc out l /\
+    length out = (length lbody + 2)%nat.
+Proof. exact override_two_bytes_refuted_warning_flag. Qed.
+Print Assumptions c12_two_bytes_refuted_warning_flag.
+
+(** (3) a custom payload with a nil value declared as length -2: rewritten as -1. *)
+Theorem c12_two_bytes_refuted_payload_nil :
+  exists c v flags lbody out l,
+    wf_bytes lbody /\ process_request c false v flags 7 lbody = FwdReenc out l /\
+    length out = length lbody /\ firstn 9 out <> firstn 9 lbody.
+Proof. exact override_two_bytes_refuted_payload_nil. Qed.
+Print Assumptions c12_two_bytes_refuted_payload_nil.
